@@ -30,6 +30,12 @@ Theorem C19_masked_ignored : all_same R_unmasked.
 Proof. exact masked_ignored. Qed.
 Print Assumptions C19_masked_ignored.
 
+(* ---- the weights are mixture weights: a member of weight 0 is ignored (also when it is not masked), and a member of
+        weight w1 + w2 is the same as two copies of it with weights w1 and w2 ---- *)
+Theorem C19_zero_weight_ignored_member_split : all_same R_zero_or_split.
+Proof. exact zero_or_split_same. Qed.
+Print Assumptions C19_zero_weight_ignored_member_split.
+
 (* ---- the aggregated mean lies between the extremes of the members (those that count: unmasked, weight > 0) ---- *)
 Theorem C19_mean_between_extremes : forall l, wnonneg l -> 0 < wtot l ->
   qmin (vals l) <= mean l <= qmax (vals l)
